@@ -831,6 +831,14 @@ func (t *tr) evBuiltin(name string, c *ast.CallExpr) []Term {
 			t.errorf(c.Pos(), "len of unsupported type")
 			return one(intLit(0))
 		}
+		if m, isMap := typeAsMap(a.T); isMap {
+			// cardinality facts: len >= 0, and an empty map has no keys
+			dom, _, _ := t.mapHeaps(m)
+			t.qcount++
+			kq := Term{S: fmt.Sprintf("k$l%d", t.qcount), Sort: W.sortOf(m.Key())}
+			t.assume(and(ge(r, intLit(0)), implies(eq(r, intLit(0)), forallT([]Term{kq}, not(sel(sel(t.read(dom), a), kq))))))
+			t.assume(implies(eq(a, intLit(0)), eq(r, intLit(0))))
+		}
 		return one(r)
 	case "cap":
 		a := t.ev(c.Args[0])
